@@ -1,6 +1,6 @@
 (* C07 proofs, part 9: postfix ++ --, member access, subscripts, calls (compilePrecedence2's loop). *)
 From Coq Require Import List NArith Bool Arith Lia.
-From CV Require Import Ast.Defs Ast.Basics Ast.Ctx Ast.Stage1.
+From CV Require Import Ast.Defs Ast.Frag Ast.Basics Ast.Ctx Ast.Stage1.
 Import ListNotations.
 
 Lemma not_prefix_strict : forall b t, (exists p b', b = p :: b' /\ strict_ender (snd p) = true) ->
